@@ -104,7 +104,7 @@ def check(repo: Repo, R) -> None:
     # parallel ports: every module port that is not one of the two resolved series ports (by identity), wired by name
     par = byname = False
     for kind, k, v, st in comps:
-        if isinstance(v, ast.DictComp) and len(v.generators) == 1 and ast.unparse(v.generators[0].iter) == "m.ports.values()" and isinstance(v.generators[0].target, ast.Name):
+        if isinstance(v, ast.DictComp) and len(v.generators) == 1 and ast.unparse(v.generators[0].iter) == "io(m).values()" and isinstance(v.generators[0].target, ast.Name):
             tv = v.generators[0].target.id
             byname = ast.unparse(v.key) == f"{tv}.name" and ast.unparse(v.value) == tv
             ifs = v.generators[0].ifs
@@ -121,9 +121,9 @@ def check(repo: Repo, R) -> None:
     R.check(par and byname, rule, key_of(fs, "parallel-ports"), fs.site,
             f"the parallel ports are the module ports that are not one of the two resolved series ports (identity test against the resolved pair: {par}), each wired to the unit port of its own name ({byname})",
             why="with series ports given as Signals a test by name against params.conns never matches: the series ports are wired in parallel too; or parallel ports are left open / crossed")
-    ports = [n for n in au.walk_no_nested(fs.node) if isinstance(n, ast.For) and ast.unparse(n.iter) == f"{p}.unit.ports.values()"]
-    ok = len(ports) == 1 and bool(pat.find("m.add(deepcopy(p))", ports[0]))
-    R.check(ok, rule, key_of(fs, "ports-cloned"), fs.site, f"the generated module has a copy of each unit port: {ok}", why="module ports differ from the unit's")
+    ports = [n for n in au.walk_no_nested(fs.node) if isinstance(n, ast.For) and ast.unparse(n.iter) == f"io({p}.unit).values()"]
+    ok = len(ports) == 1 and bool(pat.find(f"m.add(deepcopy({ast.unparse(ports[0].target)}))", ports[0]))
+    R.check(ok, rule, key_of(fs, "ports-cloned"), fs.site, f"the generated module has a copy of each unit port — signal and bundle valued (io(unit)): {ok}", why="module ports differ from the unit's: bundle-valued ports of the unit are neither exposed nor wired")
     arr_after = bool(arr) and bool(writes) and all(shared.precedes(fs.node, w[3], arr[0][0]) for w in writes)
     R.check(arr_after, rule, key_of(fs, "order"), fs.site, f"the array is connected after the connection dict is complete: {arr_after}", why="the array is connected before (or without) the series concatenations")
 
@@ -173,6 +173,14 @@ def check(repo: Repo, R) -> None:
     a = fw.node.args.args[0].arg
     io_all = bool(pat.find(f"wrapper_io = {{p.name: wrapper.add(deepcopy(p)) for p in io({a}).values()}}", fw.node))
     inner = bool(pat.find(f"wrapper.add(h.Instance(name='inner', of={a})(**wrapper_io))", fw.node))
+    # the copies are made with deepcopy: both port kinds define it as a copy that shares the definition and has fresh connection tracking
+    dc = {}
+    for rel_, cls_ in ((F_SIGNAL, "Signal"), (F_BUNDLE, "BundleInstance")):
+        ci_ = repo.cls(rel_, cls_)
+        m_ = ci_.methods.get("__deepcopy__")
+        dc[cls_] = m_ is not None and [ast.unparse(r_.value) for r_ in shared.returns_of(m_.node)] == ["self.__copy__()"] and "__copy__" in ci_.methods
+    R.check(all(dc.values()), rule, key_of(fw, "deepcopy-of-ports"), fw.site, f"deepcopy of a port object is its own shallow, definition-sharing copy: {dc}",
+            why="Wrapper (and Series) of a module with a bundle-valued port raise TypeError: deepcopy descends into the Bundle definition and its source info")
     R.check(io_all and inner, rule, key_of(fw), fw.site, f"Wrapper clones every port of io(m) — signal and bundle valued — keyed by its name ({io_all}) and passes each to the same-named port of the single inner instance ({inner})",
             why="bundle-valued ports are not exposed, or ports are wired to differently named ports")
     # the array partition this topology relies on
